@@ -110,52 +110,7 @@ def run(m: Model, r: Report, tier: str) -> None:
     tr.ack_timeout_handler(m, r, "R4", m.require_function(f"{DOIP}.DoIPConnection.write_request_raw"), "self._read_ack")
     tr.ack_timeout_handler(m, r, "R4", m.require_function(f"{HSFZ}.HSFZConnection.write_diag_request_raw"), "self._read_ack")
 
-    # unit agreement of the HSFZ acknowledgement timeout: target URIs carry milliseconds (docs, `discover hsfz`), the connection waits in seconds
-    from sa.util import num_eval
-    htc = m.require_function(f"{HSFZ}.HSFZTransport.connect")
-    hcalls = [n for n in ast.walk(htc.node) if isinstance(n, ast.Call) and ast.unparse(n.func) == "HSFZConnection.connect"]
-    if len(hcalls) != 1:
-        raise AnalysisError(f"{htc.qualname}: HSFZConnection.connect call not found")
-    hb = tr.bind_call(m, htc, hcalls[0])
-    if hb is None or "ack_timeout" not in hb:
-        raise AnalysisError(f"{htc.qualname}: cannot bind the ack_timeout argument of HSFZConnection.connect")
-    conv = hb["ack_timeout"]
-    cfg_names = {ast.unparse(x) for x in ast.walk(conv) if isinstance(x, ast.Attribute) and x.attr == "ack_timeout"}
-    if len(cfg_names) != 1:
-        raise AnalysisError(f"{htc.qualname}: ack_timeout conversion `{ast.unparse(conv)}` does not read the config field")
-    cfg_name = cfg_names.pop()
-    hcfg = m.require_class(f"{HSFZ}.HSFZConfig")
-    hconn_init = m.require_function(f"{HSFZ}.HSFZConnection.__init__")
-    d_cfg = m.try_fold(hcfg.module, hcfg.class_attrs.get("ack_timeout")) if hcfg.class_attrs.get("ack_timeout") is not None else None
-    d_conn = m.try_fold(hconn_init.module, hconn_init.param_defaults().get("ack_timeout")) if hconn_init.param_defaults().get("ack_timeout") is not None else None
-    if not isinstance(d_cfg, (int, float)) or not isinstance(d_conn, (int, float)):
-        raise AnalysisError("HSFZ ack_timeout defaults not found")
-    got = num_eval(conv, {cfg_name: d_cfg})
-    r.check(abs(got - d_conn) < 1e-9, "R4", f"{htc.qualname}#ack-timeout-default",
-            f"the default HSFZConfig.ack_timeout={d_cfg} becomes an acknowledgement wait of {got} s; the connection's own default is {d_conn} s", loc=htc.loc)
-    probe = m.require_function("gallia.commands.discover.hsfz.HSFZDiscoverer.probe") if "gallia.commands.discover.hsfz.HSFZDiscoverer.probe" in {f.qualname for f in m.functions()} else None
-    if probe is None:
-        probe = next((f for f in m.functions() if f.module.name == "gallia.commands.discover.hsfz" and f.name == "probe"), None)
-    if probe is None:
-        raise AnalysisError("discover hsfz: probe() not found")
-    emitted = [v for n in ast.walk(probe.node) if isinstance(n, ast.Dict) for k, v in zip(n.keys, n.values)
-               if isinstance(k, ast.Constant) and k.value == "ack_timeout"]
-    pcalls = [n for n in ast.walk(probe.node) if isinstance(n, ast.Call) and ast.unparse(n.func) == "HSFZConnection.connect"]
-    if len(emitted) != 1 or len(pcalls) != 1:
-        raise AnalysisError(f"{probe.qualname}: emitted ack_timeout / connection call not found")
-    pb = tr.bind_call(m, probe, pcalls[0])
-    if pb is None or "ack_timeout" not in pb or not isinstance(pb["ack_timeout"], ast.Name):
-        raise AnalysisError(f"{probe.qualname}: cannot bind ack_timeout of the probing connection")
-    sec_name = pb["ack_timeout"].id
-    bad_units = []
-    for secs in (1.0, 2.0, 5.0):
-        uri_val = num_eval(emitted[0], {sec_name: secs})
-        back = num_eval(conv, {cfg_name: uri_val})
-        if abs(back - secs) > 1e-9:
-            bad_units.append(f"{secs} s -> ack_timeout={uri_val} in the URI -> {back} s")
-    r.check(not bad_units, "R4", f"{htc.qualname}#ack-timeout-unit",
-            f"the URI that `discover hsfz` emits for a gateway probed with an acknowledgement wait is read back as a different wait: {bad_units}; "
-            "with a silent gateway the write then blocks far beyond the documented bound", loc=htc.loc)
+    tr.hsfz_ack_timeout_units(m, r, "R4")
 
     # ---------------------------------------------------------------- R5
     rc = m.require_function(f"{BASE}.BaseTransport.reconnect")
